@@ -712,6 +712,59 @@ fn gen_final_state(rng: &mut Rng) -> Vec<Rq> {
     h
 }
 
+/// "recycled id" histories: `GraphStore` hands the id of a deleted relationship / node to the
+/// next one created.  A durable relationship (or node) is deleted — the delete is not durable,
+/// a known finding — and right after it a new one is created **and returned**, with other
+/// endpoints, another type, other labels and properties: it reuses the freed id, and the record
+/// stored under that id must become the new entity in every component.
+fn gen_recycle(rng: &mut Rng) -> Vec<Rq> {
+    let mut k = 0i64;
+    let mut fresh = || {
+        k += 1;
+        k
+    };
+    let fe_del = |rng: &mut Rng| if rng.chance(1, 4) { Fe::Http } else { Fe::Resp };
+    let (a, b, c, d) = (fresh(), fresh(), fresh(), fresh());
+    let w0 = fresh();
+    let mut h = vec![
+        Rq::Query(Fe::Resp, format!("CREATE (a:P {{k: {}, name: 'a'}})-[r:KNOWS {{w: {}, since: 2020}}]->(b:P {{k: {}, name: 'b'}}) RETURN a, r, b", a, w0, b)),
+        Rq::Query(Fe::Resp, format!("CREATE (c:Q:Extra {{k: {}, f: 1.5}}) RETURN c", c)),
+        Rq::Query(Fe::Resp, format!("CREATE (d {{k: {}}}) RETURN d", d)),
+    ];
+    if rng.chance(1, 3) {
+        h.push(Rq::Restart);
+    }
+    let mut live_rel = Some(w0);
+    for _ in 0..1 + rng.usize(3) {
+        match (rng.usize(3), live_rel) {
+            (0 | 1, Some(w)) => {
+                // delete the relationship, then create one between other nodes: LIFO reuse of its id
+                h.push(Rq::Query(fe_del(rng), format!("MATCH ()-[r {{w: {}}}]->() DELETE r", w)));
+                let w2 = fresh();
+                let (x, y) = *rng.pick(&[(b, c), (c, d), (d, a), (c, c)]);
+                let ty = *rng.pick(&["LIKES", "KNOWS", "T"]);
+                let tail = *rng.pick(&[" RETURN r", " RETURN x, r, y", " RETURN r, r AS again"]);
+                h.push(Rq::Query(Fe::Resp, format!("MATCH (x {{k: {}}}), (y {{k: {}}}) CREATE (x)-[r:{} {{w: {}, tag: 'new'}}]->(y){}", x, y, ty, w2, tail)));
+                live_rel = Some(w2);
+            }
+            _ => {
+                // delete a node with its relationships, then create a node of another shape: reuse of the node id
+                let victim = *rng.pick(&[a, b]);
+                h.push(Rq::Query(fe_del(rng), format!("MATCH (n {{k: {}}}) DETACH DELETE n", victim)));
+                live_rel = None;
+                let nk = fresh();
+                h.push(Rq::Query(Fe::Resp, format!("CREATE (m:Other:Shape {{k: {}, note: 'recycled', t: [1, 2]}}) RETURN m", nk)));
+                if rng.chance(1, 2) {
+                    let w2 = fresh();
+                    h.push(Rq::Query(Fe::Resp, format!("MATCH (x {{k: {}}}), (y {{k: {}}}) CREATE (x)-[r:LINKS {{w: {}}}]->(y) RETURN r", nk, c, w2)));
+                    live_rel = Some(w2);
+                }
+            }
+        }
+    }
+    h
+}
+
 /// histories in which every statement is a RESP CREATE that returns every entity it creates
 fn gen_partial(rng: &mut Rng, len: usize) -> Vec<Rq> {
     let mut g = Gen { next_k: 0, nodes: vec![], rels: vec![] };
@@ -798,13 +851,16 @@ fn main() {
     }
     rep.count_n("corpus_histories", hists.len() as u64);
     if args.replay.is_none() {
-        let (n_part, n_final, n_rand) = if args.thorough() { (50, 50, 220) } else { (4, 4, 14) };
+        let (n_part, n_final, n_recycle, n_rand) = if args.thorough() { (50, 50, 50, 200) } else { (4, 4, 5, 12) };
         for _ in 0..n_part {
             let len = 1 + rng.usize(6);
             hists.push(("partial".into(), gen_partial(&mut rng, len)));
         }
         for _ in 0..n_final {
             hists.push(("partial".into(), gen_final_state(&mut rng)));
+        }
+        for _ in 0..n_recycle {
+            hists.push(("recycle".into(), gen_recycle(&mut rng)));
         }
         for _ in 0..n_rand {
             let mut g = Gen { next_k: 0, nodes: vec![], rels: vec![] };
